@@ -113,8 +113,14 @@ pub(crate) fn mutated(entry: usize) {
     assert!(crash_inv(), "C05.crash_point_invariant");
 }
 
+/// The error of a failed ghost operation: its kind is arbitrary among kinds that real code distinguishes
+/// (a wrapper or caller that swallows one particular kind is then exercised).
 pub(crate) fn io_err() -> io::Error {
-    io::Error::from(ErrorKind::Other)
+    if kani::any() {
+        io::Error::from(ErrorKind::Other)
+    } else {
+        io::Error::from(ErrorKind::PermissionDenied)
+    }
 }
 
 /// Failure of the next fallible file-system step, read from the symbolic fault tape.
@@ -237,6 +243,10 @@ pub(crate) fn std_symlink<P: AsRef<std::path::Path>, Q: AsRef<std::path::Path>>(
 }
 
 pub(crate) fn std_exists(p: &std::path::Path) -> bool {
+    gfs_exists(std_slot(p))
+}
+
+pub(crate) fn std_is_file(p: &std::path::Path) -> bool {
     gfs_exists(std_slot(p))
 }
 
@@ -462,6 +472,7 @@ macro_rules! ghost_fs_unit {
         #[kani::stub(std::fs::copy, crate::dedupe::verif_dedupe::std_copy)]
         #[kani::stub(std::fs::create_dir_all, crate::dedupe::verif_dedupe::std_create_dir_all)]
         #[kani::stub(std::path::Path::exists, crate::dedupe::verif_dedupe::std_exists)]
+        #[kani::stub(std::path::Path::is_file, crate::dedupe::verif_dedupe::std_is_file)]
         #[kani::stub(std::fs::File::create, crate::dedupe::verif_dedupe::std_file_create)]
         #[kani::stub(std::fs::File::open, crate::dedupe::verif_dedupe::std_file_open)]
         #[kani::stub(std::fs::OpenOptions::open, crate::dedupe::verif_dedupe::std_open_options_open)]
@@ -486,6 +497,7 @@ macro_rules! ghost_fs_unit {
         #[kani::stub(std::fs::copy, crate::dedupe::verif_dedupe::std_copy)]
         #[kani::stub(std::fs::create_dir_all, crate::dedupe::verif_dedupe::std_create_dir_all)]
         #[kani::stub(std::path::Path::exists, crate::dedupe::verif_dedupe::std_exists)]
+        #[kani::stub(std::path::Path::is_file, crate::dedupe::verif_dedupe::std_is_file)]
         #[kani::stub(std::fs::File::create, crate::dedupe::verif_dedupe::std_file_create)]
         #[kani::stub(std::fs::File::open, crate::dedupe::verif_dedupe::std_file_open)]
         #[kani::stub(std::fs::OpenOptions::open, crate::dedupe::verif_dedupe::std_open_options_open)]
